@@ -87,12 +87,26 @@ func Load(cfg Config) (*Program, error) {
 	var normOverlay map[string][]byte
 	var dead []string
 	if !cfg.NoNormalize {
-		// normal form: helpers the rules do not know are inlined into their callers
-		res := norm.Plan(pkgs, norm.Known(), Module)
-		notes = append(notes, res.Skipped...)
-		if len(res.Overlay) > 0 {
+		// normal form, in stages: (1) helpers the rules do not know are inlined into
+		// their callers, (2) loops over local literal tables are written out row by row,
+		// (3) local struct variables only used field by field become one local per field
+		cum := map[string][]byte{}
+		for k, v := range cfg.Overlay {
+			cum[k] = v
+		}
+		stages := []func([]*packages.Package) *norm.Result{
+			func(ps []*packages.Package) *norm.Result { return norm.Plan(ps, norm.Known(), Module) },
+			func(ps []*packages.Package) *norm.Result { return norm.Unroll(ps, Module) },
+			func(ps []*packages.Package) *norm.Result { return norm.Scalarise(ps, Module) },
+		}
+		for si, stage := range stages {
+			res := stage(pkgs)
+			notes = append(notes, res.Skipped...)
+			if len(res.Overlay) == 0 {
+				continue
+			}
 			ov := map[string][]byte{}
-			for k, v := range cfg.Overlay {
+			for k, v := range cum {
 				ov[k] = v
 			}
 			for k, v := range res.Overlay {
@@ -106,24 +120,38 @@ func Load(cfg Config) (*Program, error) {
 			pc2.Overlay = ov
 			pkgs2, err2 := loadPkgs(&pc2, cfg.Patterns)
 			if err2 != nil {
-				// the normaliser must never make a compiling tree undecidable: analyse the tree as it is
+				// the normaliser must never make a compiling tree undecidable: analyse the tree as it was before this stage
 				if d := os.Getenv("XPCHECK_DEBUG_NORM"); d != "" {
 					for f, b := range res.Overlay {
 						os.WriteFile(d+"/"+strings.ReplaceAll(strings.TrimPrefix(f, cfg.Dir+"/"), "/", "__"), b, 0o644)
 					}
 				}
-				notes = append(notes, "normal form rejected by the type checker, analysing the tree as written: "+err2.Error())
+				notes = append(notes, fmt.Sprintf("normal form (stage %d) rejected by the type checker, analysing the tree without it: %s", si+1, err2.Error()))
 				fset = token.NewFileSet()
-				pc.Fset = fset
-				if pkgs, err = loadPkgs(pc, cfg.Patterns); err != nil {
+				pc3 := *pc
+				pc3.Fset = fset
+				pc3.Overlay = cum
+				if pkgs, err = loadPkgs(&pc3, cfg.Patterns); err != nil {
 					return nil, err
 				}
-			} else {
-				pkgs = pkgs2
-				normOverlay = res.Overlay
+				continue
+			}
+			pkgs = pkgs2
+			cum = ov
+			if normOverlay == nil {
+				normOverlay = map[string][]byte{}
+			}
+			for k, v := range res.Overlay {
+				normOverlay[k] = v
+			}
+			if si == 0 {
 				dead = norm.DeadHelpers(pkgs, norm.Known(), Module)
-				for _, s := range res.Inlined {
+			}
+			for _, s := range res.Inlined {
+				if si == 0 {
 					notes = append(notes, "inlined "+s)
+				} else {
+					notes = append(notes, s)
 				}
 			}
 		}
